@@ -61,7 +61,11 @@ Lexemes(fam) ==
            P(cCOM), P(cBS), P(cDASH), P(cBANG), P(cSEP), P(cA), P(cEAC), P(cI), P(49)>>
     [] fam = "esc" ->   \* C18: every string over the meta-characters, the contextual ones, a separator and letters
          <<P(cQ), P(cSTAR), P(cDOL), P(cCOL), P(cLT), P(cGT), P(cLP), P(cRP), P(cLB), P(cRB), P(cLC), P(cRC),
-           P(cCOM), P(cDASH), P(cBANG), P(cSEP), P(cA), P(cEAC)>>
+           P(cCOM), P(cDASH), P(cBANG), P(cSEP), P(cA), P(cEAC),
+           \* non-ASCII characters whose code point, truncated to a byte, is a meta-character, a separator or
+           \* a backslash: U+0424 (dollar), U+015B (left bracket), U+012A (asterisk), U+013F (question mark),
+           \* U+012F (slash), U+015C (backslash), U+7329 (right parenthesis)
+           P(1060), P(347), P(298), P(319), P(303), P(348), P(29481)>>
     [] fam = "flags" ->   \* flag placement: before, inside and after branches, next to classes
          <<P(cA), P(cUA), FlagI, FlagNI, Open, Comma, Close, ROpen, R12, ClsA>>
     [] fam = "deep" ->
